@@ -50,7 +50,8 @@ func policyLists(pols []refdl.Policy, max int) [][]refdl.Policy {
 func c04S1(c *sup.Ctx) *sup.Space {
 	lists := policyLists(c04Policies, sup.Pick(c, 2, 3))
 	// modes: 0 all checks pass, 1 authorizer check fails, 2 authority check fails, 3 block check fails, 4 no checks at all, 5 facts live in the authorizer
-	const modes = 6
+	// 6 authority [pass, fail], 7 authorizer [fail, pass], 8 block [pass, fail], 9 authority [pass, fail, pass]
+	const modes = 10
 	size := int64(len(lists)) * 16 * modes
 	return &sup.Space{Name: "S1-policy-logic", Size: func(*sup.Ctx) int64 { return size }, Run: func(i int64, w *sup.W) {
 		mode := int(i % modes)
@@ -81,6 +82,15 @@ func c04S1(c *sup.Ctx) *sup.Space {
 			s.Authority.Checks = []refdl.Check{fail, pass}
 		case 3:
 			s.Blocks = []refdl.Block{{Checks: []refdl.Check{pass}}, {Checks: []refdl.Check{fail}}}
+		case 6:
+			s.Authority.Checks = []refdl.Check{pass, fail}
+		case 7:
+			s.Auth.Checks = []refdl.Check{fail, pass}
+		case 8:
+			s.Blocks = []refdl.Block{{Checks: []refdl.Check{pass, fail}}, {Checks: []refdl.Check{pass}}}
+		case 9:
+			s.Authority.Checks = []refdl.Check{pass, fail, pass}
+			s.Auth.Checks = []refdl.Check{pass, pass}
 		}
 		_, ref, ok := compareWithReference(w, s, "S1")
 		if ok {
@@ -117,18 +127,25 @@ func checkLists(max int) [][]refdl.Check {
 	return out
 }
 
-func c04S2(c *sup.Ctx, name string, maxA, maxB int) *sup.Space {
+func c04S2(c *sup.Ctx, name string, maxA, maxB int, lite bool) *sup.Space {
 	la := checkLists(maxA) // authorizer and authority
 	lb := checkLists(maxB) // block 1 and block 2
 	pols := [][]refdl.Policy{{allow(qTrue)}, {deny(q(atom("b"))), allow(q(atom("a")))}, {}}
 	// where a and b live: 0 absent, 1 authority, 2 authorizer, 3 block1, 4 block2
+	places := []int{0, 1, 2, 3, 4}
+	if lite {
+		// lite: one policy list, facts absent / in the authority block / in block 1
+		pols = pols[:1]
+		places = []int{0, 1, 3}
+	}
+	np := int64(len(places))
 	na, nb := int64(len(la)), int64(len(lb))
-	size := na * na * nb * nb * 25 * int64(len(pols))
+	size := na * na * nb * nb * np * np * int64(len(pols))
 	return &sup.Space{Name: name, Size: func(*sup.Ctx) int64 { return size }, Run: func(i int64, w *sup.W) {
 		pi := i % int64(len(pols))
 		i /= int64(len(pols))
-		wa, wb := int(i%5), int(i/5%5)
-		i /= 25
+		wa, wb := places[i%np], places[i/np%np]
+		i /= np * np
 		c1 := la[i%na]
 		i /= na
 		c0 := la[i%na]
@@ -190,7 +207,8 @@ var c04Rules = []refdl.Rule{
 	rule(atom("p", vx), atom("p", vx)),
 }
 
-var c04Probes = []refdl.Rule{q(atom("q", i0)), q(atom("q", i1)), q(atom("z")), q(atom("r", i1, i0)), q(atom("p", i1)), q(atom("r", vx, vx))}
+// the third probe has more body atoms than a one-fact scope has facts (one fact can match several atoms)
+var c04Probes = []refdl.Rule{q(atom("q", i0)), q(atom("q", i1)), q(atom("p", vx), atom("p", vy), atom("p", i0)), q(atom("z")), q(atom("r", i1, i0)), q(atom("p", i1)), q(atom("r", vx, vx))}
 
 func c04S3(c *sup.Ctx) *sup.Space {
 	type placed struct {
@@ -224,7 +242,7 @@ func c04S3(c *sup.Ctx) *sup.Space {
 	}
 	probes := c04Probes
 	if c.Quick() {
-		probes = probes[:3]
+		probes = probes[:4]
 	}
 	nprobe := int64(len(probes))*4 + 1
 	nrs := int64(len(ruleSets))
@@ -361,9 +379,11 @@ func init() {
 		Procs:        func(string) int { return 16 },
 		SingleThread: true,
 		Spaces: func(c *sup.Ctx) []*sup.Space {
-			sp := []*sup.Space{c04S1(c), c04S2(c, "S2-check-logic", 1, 1), c04S3(c), c04S4(c)}
+			sp := []*sup.Space{c04S1(c), c04S2(c, "S2-check-logic", 1, 1, false), c04S3(c), c04S4(c)}
 			if c.Thorough() {
-				sp = append(sp, c04S2(c, "S2-check-logic-authorizer-authority-pairs", 2, 1), c04S2(c, "S2-check-logic-block-pairs", 1, 2))
+				sp = append(sp, c04S2(c, "S2-check-logic-authorizer-authority-pairs", 2, 1, false), c04S2(c, "S2-check-logic-block-pairs", 1, 2, false))
+			} else {
+				sp = append(sp, c04S2(c, "S2-two-checks-per-source-lite", 2, 1, true), c04S2(c, "S2-two-checks-per-block-lite", 1, 2, true))
 			}
 			return sp
 		},
